@@ -50,6 +50,8 @@ fn build_world(name: &str) -> Built3 {
         // pool P13 is an adaptive-fee pool that opens for trading 40 s after the start: until the clock op (+45 s) has run, every
         // route through it has a leg that fails on its own ("fails ... if either leg would fail on its own"), afterwards not
         "c17-te" => (Kind::Spl, [false, false, true], Some(40)),
+        // two adaptive-fee pools on a route, one already open and one that opens 40 s later
+        "c17-te2" => (Kind::Spl, [true, false, true], Some(40)),
         // the third pool is full-range-only (see partial_fill_part)
         "c17-fro" => (Kind::Spl, [false, false, false], None),
         _ => panic!("unknown world {name}"),
@@ -781,7 +783,16 @@ pub fn packaging_part() -> (u64, u64, Option<(String, String, Value)>) {
 /// whose third pool has not yet opened, every two-hop variant (v1 and v2, both modes, every route) is judged — a route through the
 /// closed pool must fail, whichever leg it is. Returns (variants judged, first failure).
 pub fn trade_enable_part() -> (u64, Option<(String, String, Value)>) {
-    let b = build_world("c17-te");
+    let (n1, bad) = trade_enable_part_in("c17-te");
+    if bad.is_some() {
+        return (n1, bad);
+    }
+    let (n2, bad) = trade_enable_part_in("c17-te2");
+    (n1 + n2, bad)
+}
+
+fn trade_enable_part_in(world: &str) -> (u64, Option<(String, String, Value)>) {
+    let b = build_world(world);
     let vs: Vec<Variant> = variants(&b.w, false).into_iter().filter(|v| v.lim1 == Lim::None && v.lim2 == Lim::None).collect();
     let mut c = Counts::new();
     let mut n = 0u64;
@@ -790,8 +801,8 @@ pub fn trade_enable_part() -> (u64, Option<(String, String, Value)>) {
             n += 1;
             let mut sample = None;
             if let Err(e) = check_variant(l, &b.w, v, &mut c, &mut sample) {
-                let case = json!({"kind": "twohop_trade_enable", "root": rname, "variant": serde_json::to_value(v).unwrap()});
-                return (n, Some((format!("twohop_trade_enable/{rname}/{}", serde_json::to_string(v).unwrap()), format!("[world with a pool that opens 40 s later, root {rname}] {e} | variant {}", serde_json::to_string(v).unwrap()), case)));
+                let case = json!({"kind": "twohop_trade_enable", "world": world, "root": rname, "variant": serde_json::to_value(v).unwrap()});
+                return (n, Some((format!("twohop_trade_enable/{world}/{rname}/{}", serde_json::to_string(v).unwrap()), format!("[world {world} with a pool that opens 40 s later, root {rname}] {e} | variant {}", serde_json::to_string(v).unwrap()), case)));
             }
         }
     }
@@ -841,7 +852,7 @@ pub fn replay_partial_fill(case: &Value) -> Result<(), String> {
 }
 
 pub fn replay_trade_enable(case: &Value) -> Result<(), String> {
-    let b = build_world("c17-te");
+    let b = build_world(case["world"].as_str().unwrap_or("c17-te"));
     let root = case["root"].as_str().ok_or("root")?;
     let l = &b.roots.iter().find(|r| r.0 == root).ok_or("unknown root")?.1;
     let v: Variant = serde_json::from_value(case["variant"].clone()).map_err(|e| e.to_string())?;
